@@ -221,16 +221,30 @@ def Rest.firstSep : Rest α → Option Bytes
   | .cons s _ _ => some s
 
 mutual
-/-- leaves strictly sorted; every separator bounds its neighbours: all keys on its left are smaller, all
-keys of its own child are not smaller, separators do not descend -/
+/-- leaves non-empty and strictly sorted; every separator bounds its neighbours: all keys on its left are
+smaller, all keys of its own child are not smaller, separators ascend -/
 def Node.WF : Node α → Prop
-  | .leaf kvs => kvs.Pairwise (fun a b => bcmp a.1 b.1 = .lt)
+  | .leaf kvs => kvs ≠ [] ∧ kvs.Pairwise (fun a b => bcmp a.1 b.1 = .lt)
   | .inner c0 rest => c0.WF ∧ rest.WF ∧ (∀ s, Rest.firstSep rest = some s → AllLt s c0.keys)
 def Rest.WF : Rest α → Prop
   | .nil => True
   | .cons sep child tl =>
-    child.WF ∧ AllGe sep child.keys ∧ tl.WF ∧ (∀ s, Rest.firstSep tl = some s → AllLt s child.keys ∧ bcmp sep s ≠ .gt)
+    child.WF ∧ AllGe sep child.keys ∧ tl.WF ∧ (∀ s, Rest.firstSep tl = some s → AllLt s child.keys ∧ bcmp sep s = .lt)
 end
+
+/-! ### results of an insertion: leaf chain, keys, well-formedness -/
+
+def Ins.toList : Ins α → List (Bytes × α)
+  | .one n => n.toList
+  | .split l _ r => l.toList ++ r.toList
+
+def Ins.keys : Ins α → List Bytes
+  | .one n => n.keys
+  | .split l s r => l.keys ++ s :: r.keys
+
+def Ins.WF : Ins α → Prop
+  | .one n => n.WF
+  | .split l s r => l.WF ∧ r.WF ∧ AllLt s l.keys ∧ AllGe s r.keys
 
 /-! ### shape (for the correspondence with `BPTree.VerifDump`) -/
 
